@@ -642,3 +642,26 @@ def x13(ctx):
 def x14(ctx):
     from .c04 import b2
     return b2(ctx)
+
+
+@rule("C10", "X15", floor=1, kind="S",
+      desc="'defined' means the property has a value, whatever the value: PropertyFilter.match_indexes decides presence on the "
+           "list of indexed values (bool / len), never with any() / all() over the values - an empty LOCATION: is indexed as "
+           "b'' and is present on the path that parses the calendar")
+def x15(ctx):
+    f = ctx.own_method(ICAL + ".PropertyFilter", "match_indexes")
+    ip = f.params[1] if len(f.params) > 1 else "indexes"
+    obs = []
+    n_dec = 0
+    for x in walk_local(f):
+        if isinstance(x, ast.Call) and isinstance(x.func, ast.Name) and x.func.id in ("any", "all", "bool", "len") and len(x.args) == 1 \
+                and isinstance(x.args[0], ast.Subscript) and dotted(x.args[0].value) == ip:
+            n_dec += 1
+            obs.append(ctx.ob(x.func.id in ("bool", "len"), f.qualname, "%s:%d" % (f.module.rel, x.lineno), "presence is decided on the list of values",
+                              "%s(%s)" % (x.func.id, src(x.args[0])),
+                              "PropertyFilter.match_indexes decides whether the property is defined with `%s`: that is false for a property whose "
+                              "only value is empty (indexed as b''), so once the query is served from the index the prop-filter / is-not-defined "
+                              "answers flip for such resources" % src(x)[:50]))
+    if not n_dec:
+        obs.append(ctx.ok(f.qualname, f.where, "presence is decided on the list of values", "no any()/all() over the indexed values"))
+    return obs
